@@ -16,6 +16,7 @@ Props/C02.lean).  One reply line per request line.
         → (rᵀA⁻¹D_kA⁻¹r  tr(A⁻¹D_k)  dμ_kᵀA⁻¹r  gradAssemble ½ ·)×c      | singular
         (`MLL.gradParts?`: the exact gradient of log N(y | μ, A) along (D_k, dμ_k) — `Props/C02.lean`
         `logNormal_gradient`, `gradParts_correct`)
+  loograd 0  <A> <r>  c (<D_k> <dμ_k>)×c  → (MLL.looGrad? ½ A D_k r dμ_k)×c   | singular    (`loo_gradient`, `looGrad_correct`)
 -/
 import GPVerif.Model.MLL
 import GPVerif.Gen.MLLAssembly
@@ -122,6 +123,29 @@ def stepSum (ts : List String) : Option String := do
   let ms ← parseRats? ts
   some (showRat (Gen.MLLAssembly.sumMllExpr ms))
 
+def stepLooGrad (ts : List String) : Option String := do
+  let (k, ts) ← takeNat ts
+  if k ≠ 0 then none else
+  let (n, c, A, ts) ← takeMat? ts
+  let (n2, _, r, ts) ← takeMat? ts
+  if n ≠ c ∨ n2 ≠ n then none else
+  let (cnt, ts) ← takeNat ts
+  let Am : DMat n n Rat := DMat.ofRaw A
+  let rv := colVec n r
+  let rec go (cnt : Nat) (ts : List String) (acc : List String) : Option (List String) :=
+    match cnt with
+    | 0 => if ts = [] then some acc.reverse else none
+    | cnt + 1 => do
+        let (a, b, D, ts) ← takeMat? ts
+        let (a2, _, dm, ts) ← takeMat? ts
+        if a ≠ n ∨ b ≠ n ∨ a2 ≠ n then none else
+        let Dm : DMat n n Rat := DMat.ofRaw D
+        match looGrad? (1 / 2 : Rat) Am Dm rv (colVec n dm) with
+        | none => some ["singular"]
+        | some g => go cnt ts (showRat g :: acc)
+  let out ← go cnt ts []
+  if out.contains "singular" then some "singular" else some (" ".intercalate out)
+
 def stepGrad (ts : List String) : Option String := do
   let (k, ts) ← takeNat ts
   if k ≠ 0 then none else
@@ -152,6 +176,7 @@ def step (line : String) : String :=
     | "loo" :: ts => stepLoo ts
     | "sum" :: ts => stepSum ts
     | "grad" :: ts => stepGrad ts
+    | "loograd" :: ts => stepLooGrad ts
     | _ => none
   r.getD "bad-request"
 
